@@ -250,3 +250,81 @@ def input_fields_sx(schema, scalars_cfg: dict):
             fields.append([fname, nullable, is_list, base, isinstance(dv, (ListValueNode, ObjectValueNode))])
         out[name] = fields
     return out
+
+
+# ---- the executable document in the Gql/Schema.v vocabulary (Model/PruneDoc.v docenums) ----
+def _gtype_sx(t):
+    from graphql import GraphQLList, GraphQLNonNull
+
+    from ..sexp import Sym
+
+    if isinstance(t, GraphQLNonNull):
+        return [Sym("nn"), _gtype_sx(t.of_type)]
+    if isinstance(t, GraphQLList):
+        return [Sym("l"), _gtype_sx(t.of_type)]
+    return [Sym("n"), t.name]
+
+
+def gql_schema_sx(schema):
+    from graphql import (GraphQLInterfaceType, GraphQLObjectType, GraphQLUnionType)
+
+    from ..sexp import Sym, opt
+
+    types = []
+    for name, t in schema.type_map.items():
+        if name.startswith("__"):
+            continue
+        if isinstance(t, GraphQLObjectType):
+            d = [Sym("object"), [i.name for i in t.interfaces], [[fn, _gtype_sx(f.type)] for fn, f in t.fields.items()]]
+        elif isinstance(t, GraphQLInterfaceType):
+            d = [Sym("interface"), [i.name for i in t.interfaces], [[fn, _gtype_sx(f.type)] for fn, f in t.fields.items()]]
+        elif isinstance(t, GraphQLUnionType):
+            d = [Sym("union")] + [m.name for m in t.types]
+        elif isinstance(t, GraphQLEnumType):
+            d = [Sym("enum")] + list(t.values)
+        elif isinstance(t, GraphQLInputObjectType):
+            d = [Sym("input")]
+        else:
+            d = [Sym("scalar")]
+        types.append([name, d])
+    root = lambda r: opt(r.name if r else None)
+    return [Sym("schema"), types, root(schema.query_type), root(schema.mutation_type), root(schema.subscription_type)]
+
+
+def _cond(node):
+    return any(d.name.value in ("skip", "include") for d in (node.directives or ()))
+
+
+def gql_sel_sx(selset):
+    from ..sexp import Sym, opt
+
+    out = []
+    for s in (selset.selections if selset else ()):
+        if isinstance(s, FieldNode):
+            sub = [Sym("some"), gql_sel_sx(s.selection_set)] if s.selection_set else Sym("none")
+            out.append([Sym("f"), opt(s.alias.value if s.alias else None), s.name.value, _cond(s), [], sub])
+        elif isinstance(s, FragmentSpreadNode):
+            out.append([Sym("s"), s.name.value, _cond(s)])
+        elif isinstance(s, InlineFragmentNode):
+            out.append([Sym("i"), opt(s.type_condition.name.value if s.type_condition else None), _cond(s),
+                        gql_sel_sx(s.selection_set)])
+    return out
+
+
+def _size(selset):
+    n = 1
+    for s in (selset.selections if selset else ()):
+        n += 1 + (_size(s.selection_set) if getattr(s, "selection_set", None) else 0)
+    return n
+
+
+def docenums_cmd(an):
+    """(docenums fuel schema frags ops): the model computes variables' types and reachable enums itself."""
+    from ..sexp import Sym
+
+    frs = [[f.name.value, f.type_condition.name.value, [], gql_sel_sx(f.selection_set)] for f in an.frags.values()]
+    ops = [[o.name.value, an.schema.get_root_type(o.operation).name,
+            [[v.variable.name.value, _gtype_sx(type_from_ast(an.schema, v.type))] for v in (o.variable_definitions or ())],
+            gql_sel_sx(o.selection_set)] for o in an.ops]
+    total = sum(_size(d.selection_set) for d in an.doc.definitions)
+    return [Sym("docenums"), (total + 4) * (len(an.frags) + 2), gql_schema_sx(an.schema), frs, ops]
